@@ -33,7 +33,7 @@ def run(ctx):
             mats += [np.array(v).reshape(R, Ns) for v in allm]
     ctx.exhaustive = ctx.thorough()
     for _ in range(ctx.n(200, 3000)):
-        R = ctx.rng.randint(2, 9); Ns = ctx.rng.randint(1, 12)
+        R = ctx.rng.randint(2, 9) if ctx.rng.random() < 0.7 else ctx.rng.randint(10, 40); Ns = ctx.rng.randint(1, 12)
         pr = ctx.rng.choice([0.1, 0.5, 0.9])
         mats.append(np.array([[1 if ctx.rng.random() < pr else 0 for _ in range(Ns)] for _ in range(R)]))
     dts = [np.int64, np.int8, np.uint8, np.uint16, np.uint64, bool, float, np.int32]
